@@ -92,7 +92,7 @@ CHECKS.update({
 
 CHECKS.update({
  'C04': dict(level='exploration', design='3/C04',
-    text='Bounded exhaustive enumeration of fragmented transfers (element type per size x tag length x start x count x reply budget 1..3*size+1 set through Logix.MAX_BYTES or the per-request max_size, via Unconnected Send, Multiple Service Packet and straight to the Logix object) driven exactly as the statement says, all in-order tilings for fragmented writes with guard tags, plus Hypothesis-drawn large cases (tags up to 5000 elements, the real 488-byte budget) and the same transfers through cpppo\'s own client over TCP. Exhaustive within the stated bounds only.',
+    text='Bounded exhaustive enumeration of fragmented transfers (element type per size x tag length x start x count x reply budget 1..3*size+1 set through Logix.MAX_BYTES or the per-request max_size, via Unconnected Send, Multiple Service Packet and straight to the Logix object) driven exactly as the statement says, all in-order tilings for fragmented writes with guard tags, plus Hypothesis-drawn large cases (tags up to 5000 elements, and of 32770 / 40000 / 65535 elements with start indices around 32768, the real 488-byte budget) and the same transfers through cpppo\'s own client over TCP. Exhaustive within the stated bounds only.',
     note='Trusted: CPython, Hypothesis, vp/refcodec.py, vp/sim.py. In-bounds, element-aligned transfers only (out-of-bounds is C05).',
     technique='bounded exhaustive enumeration + property-based testing with a reassembly/model-slice oracle'),
  'C17': dict(level='exploration', design='3/C17',
@@ -131,7 +131,7 @@ ADDENDA = {
  'C06': ' A quarter of the shards run against --size N (over-size requests: one reply with a non-zero encapsulation status) and a quarter against --route-path; bundle members address other objects and are judged member by member; a client-context clause drives the library client collect() with arbitrary sender contexts; Forward Open / Large Forward Open / Forward Close in the sequences; a positive test that Unregister ends the session; a routed clause (router rig: second simulator behind the stalling relay, DESIGN 9.7).',
  'C07': ' Client clause also spells attribute services as generic service-code operations; bundles of 255/256/257/300 small members.',
  'C08': ' TCP clause: a session aborted with RST followed by a new session from the same source port (after the aborted connection\'s handler thread ended); bursts of connections reset before accept; a write request cut at every byte offset followed by end-of-stream; a connection neither answered nor closed within 15 s is watched for another 45 s (late close = violation). Connected clause: Forward Open with 0..3 hops then connected requests under a repeating watchdog the code under test cannot swallow.',
- 'C09': ' Register Session is issued under the schedule too (dedicated sweep scenario and one in four drawn cases); both engines require pairwise distinct session handles of simultaneously open sessions; one tag whose element ranges are each written by one session only; produce side line-traced (reader preempted while encoding); unparsable requests from one session while others run (two-preemption sweep, hostile sessions in engine B); a same-source-port pair from two loopback addresses.',
+ 'C09': ' Register Session is issued under the schedule too (dedicated sweep scenario and one in four drawn cases); both engines require pairwise distinct session handles of simultaneously open sessions; one tag whose element ranges are each written by one session only; produce side line-traced (reader preempted while encoding); unparsable requests from one session while others run (two-preemption sweep, hostile sessions in engine B); a same-source-port pair from two loopback addresses; engine B clients also pipeline request pairs in one segment (both answered, in order).',
  'C13': ' Stall clause: the relay delivers a reply up to byte k, stays silent past the client timeout, then delivers the rest; the connector is driven directly (with conn: harvest(issue(...))) and a later transaction must never yield the delayed reply. poll.run over several cycles. One wide exchange (12 reads, all in flight; 21 in the thorough tier) under every contiguous run of wholly lost replies.',
  'C14': ' Tags with dotted names sharing leading components and unknown siblings. Connected sequence counts cross 0x8000/0xFFFF; port-less connection paths (reference session and pylogix Micro800); a second connected session dropped abruptly; raw out-of-range requests must carry 0xFF/0x2105; an exception raised inside pylogix is a failure to interoperate.',
  'C15': ' Stream clause: operation streams with per-operation route path text through connector.issue (frames captured, decoded by the reference codec); connector-level default route paths; configuration-file personalities (--config) and main(UCMM_class=...) in the CLI matrix.',
